@@ -596,3 +596,6 @@ func Roles(pairs ...string) func(string) string {
 		return k
 	}
 }
+
+// And returns the conjunction of two formulas.
+func And(a, b Formula) Formula { return fAnd{a, b} }
